@@ -36,6 +36,8 @@ func main() {
 		for _, l := range checks.TZDigest() {
 			fmt.Println(l)
 		}
+	case "c04rot":
+		checks.C04RotMain(os.Args[2:])
 	case "list":
 		for _, id := range core.IDs() {
 			fmt.Println(id)
